@@ -333,4 +333,131 @@ def rule_fold_mirror(P):
     return R
 
 
-RULES = [rule_level_sign, rule_twins, rule_eval_dispatch, rule_iter_advance, rule_fold_mirror]
+# least legal value of each coordinate of a minterm position (minterm::setVar / setVars contract: from >= 0 or DONT_CARE; to >= 0, DONT_CARE or
+# DONT_CHANGE) — "the largest value of the partition is the least legal one" is then the same as "every value of the partition is that one"
+BOTTOM = {"V": -1, "U": -1, "P": -2}
+NAMES = {-1: "DONT_CARE", -2: "DONT_CHANGE"}
+
+
+def rule_uniform_shortcut(P):
+    """the recursive partition builder over a sorted minterm collection (fbuilder::createEdgeSet / createEdgeRel) has shortcuts that send the whole
+    interval [low, high) down one level and then cover level L with a single pattern.  That is the construction the collection specifies only if every
+    minterm of the interval has the same entry at level L, so the shortcut's governing tests must imply uniformity: per sorted coordinate the maximum is
+    pinned to a constant c and either the minimum is pinned to the same c or c is the least legal value of the coordinate; and the pattern laid over the
+    level is the one c names (don't-care: redundant levels, don't-change: identity pattern).  Seed C03b dropped the minimum test of the (x,x) shortcut:
+    a partition mixing (x,x) and (x,i) lost its don't-change constraint"""
+    R = RuleResult("build.uniform-shortcut", "in every instantiation of fbuilder::createEdgeSet / createEdgeRel: a recursive call on the whole interval is governed by tests that pin, per coordinate of getMinMax, the maximum to a constant and the minimum to the same constant unless it is the coordinate's least legal value; the level is then covered by makeRedundantsTo for DONT_CARE and by identityPattern for DONT_CHANGE, and identityPattern is used nowhere else than under a DONT_CHANGE test of a primed coordinate")
+    seen = set()
+    nshort = 0
+    for f in sorted(P.fns.values(), key=lambda f: (f["file"], f["line"], f["inst"])):
+        if not f.get("cfg") or not re.search(r"fbuilder<.*>::createEdge(Set|Rel)$", f["q"]) or (f["file"], f["line"]) in seen:
+            continue
+        seen.add((f["file"], f["line"]))
+        ps = [p_["name"] for p_ in f.get("params", [])]
+        if len(ps) < 3:
+            raise AnalysisBroken("build.uniform-shortcut: %s no longer has (L, low, high, …) parameters" % f["q"])
+        Lp, low, high = ps[0], ps[1], ps[2]
+        g = Graph(f)
+        short = base_name(f["q"]).replace(M, "")
+        role = {}   # variable -> ("min"|"max", coordinate)
+        for k in g.nodes:
+            if k.kind == "call" and k.ev["q"].endswith("::getMinMax"):
+                cal = [c for c in P.by_q.get(k.ev["q"], []) if len(c.get("params", [])) == len(k.ev["args"])]
+                if not cal:
+                    raise AnalysisBroken("build.uniform-shortcut: cannot resolve the %d-argument getMinMax called by %s" % (len(k.ev["args"]), short))
+                for pn, a in zip([p_["name"] for p_ in cal[0]["params"]], k.ev["args"]):
+                    m = re.fullmatch(r"(min|max)([A-Z])", pn)
+                    if m and re.fullmatch(r"\w+", _nz(a)):
+                        role[_nz(a)] = (m.group(1), m.group(2))
+        coords = sorted({c for _, c in role.values()})
+        if not coords or any(c not in BOTTOM for c in coords):
+            raise AnalysisBroken("build.uniform-shortcut: %s: getMinMax roles %s not understood" % (short, role))
+        derived = dict(role)
+        for k in g.nodes:
+            if k.kind == "ldef" and _nz(k.ev.get("rhs") or "") in role:
+                derived[k.ev["var"]] = role[_nz(k.ev["rhs"])]
+
+        def governing(k):
+            out = []
+            for c in g.nodes:
+                if c.kind != "branch" or not c.cond or len(c.succ) != 2:
+                    continue
+                arms = [i for s_, i in c.succ if k.id in g.reach([s_], avoid=lambda x, c=c: x.id == c.id)]
+                if len(arms) == 1:
+                    out.append((c.cond, arms[0]))
+            return out
+
+        def pins(k, table):
+            """{variable: constant} known to hold at k from ==-tests on their true edge"""
+            out = {}
+            for c, arm in governing(k):
+                if c.get("op") != "==" or arm != (1 if c.get("neg") else 0):
+                    continue
+                l, r = c.get("l") or {}, c.get("r") or {}
+                for a, b in ((l, r), (r, l)):
+                    if "const" in a and _nz(b.get("text")) in table:
+                        out[_nz(b["text"])] = a["const"]
+            return out
+        for k in g.nodes:
+            if k.kind != "call":
+                continue
+            nm = k.ev["q"].split("::")[-1]
+            a = [_nz(x) for x in k.ev["args"]]
+            if k.ev["q"] == f["q"] and len(a) >= 3 and a[1] == low and a[2] == high:
+                nshort += 1
+                R.functions.add(f["inst"])
+                pin = pins(k, role)
+                got = {}
+                for c in coords:
+                    R.paths += 1
+                    mx = [v for v, (mm, cc) in role.items() if mm == "max" and cc == c]
+                    mn = [v for v, (mm, cc) in role.items() if mm == "min" and cc == c]
+                    cm = next((pin[v] for v in mx if v in pin), None)
+                    iid = "%s: whole-interval shortcut under %s: coordinate %s" % (short, ", ".join("%s==%s" % (v, NAMES.get(x, x)) for v, x in sorted(pin.items())) or "no pin", c)
+                    if cm is None:
+                        R.fail(iid, where(f, k.line), Finding(R.rule, f["file"], base_name(f["q"]), "shortcut:%s:max%s-unpinned" % (",".join("%s=%s" % x for x in sorted(pin.items())), c),
+                               "the whole interval [%s, %s) is sent down as one although the largest %s entry of the partition is not pinned to a constant: minterms with different entries at level %s are merged" % (low, high, c, Lp), k.line))
+                        continue
+                    got[c] = cm
+                    if cm == BOTTOM[c] or any(pin.get(v) == cm for v in mn):
+                        R.ok(iid, where(f, k.line))
+                    else:
+                        R.fail(iid, where(f, k.line), Finding(R.rule, f["file"], base_name(f["q"]), "shortcut:%s:min%s-unpinned" % (",".join("%s=%s" % x for x in sorted(pin.items())), c),
+                               "the whole interval [%s, %s) is sent down as one because the largest %s entry is %s, but %s is not the least legal %s entry (that is %s) and the smallest entry is not tested: a partition that also holds %s entries loses them" % (low, high, c, NAMES.get(cm, cm), NAMES.get(cm, cm), c, NAMES[BOTTOM[c]], NAMES[BOTTOM[c]]), k.line))
+                last = coords[-1] if coords != ["P", "U"] else "P"
+                if last in got:
+                    after = {x.ev["q"].split("::")[-1] for x in g.nodes if x.kind == "call" and x.id in g.reach([k.id])}
+                    want, other = ("identityPattern", "makeRedundantsTo") if got[last] == -2 else ("makeRedundantsTo", "identityPattern")
+                    R.paths += 1
+                    iid = "%s: whole-interval shortcut for %s: level covered by %s" % (short, NAMES.get(got[last], got[last]), want)
+                    if want in after and other not in after:
+                        R.ok(iid, where(f, k.line))
+                    else:
+                        R.fail(iid, where(f, k.line), Finding(R.rule, f["file"], base_name(f["q"]), "cover:" + NAMES.get(got[last], str(got[last])),
+                               "every entry of the partition at level %s is %s, but the level is covered by %s instead of %s" % (Lp, NAMES.get(got[last], got[last]), sorted(after & {"identityPattern", "makeRedundantsTo"}), want), k.line))
+            elif nm == "identityPattern":
+                R.paths += 1
+                R.functions.add(f["inst"])
+                pin = pins(k, derived)
+                iid = "%s: identityPattern(%s) only for DONT_CHANGE" % (short, ", ".join(a)[:40])
+                if any(x == -2 and derived[v][1] == "P" for v, x in pin.items()):
+                    R.ok(iid, where(f, k.line))
+                else:
+                    R.fail(iid, where(f, k.line), Finding(R.rule, f["file"], base_name(f["q"]), "identity-without-dont-change",
+                           "an identity pattern is laid over level %s without a governing `DONT_CHANGE == <primed entry>` test (known here: %s)" % (Lp, sorted(pin.items())), k.line))
+            elif nm == "makeRedundantsTo" and len(a) == 3 and a[2] == Lp and a[1] in (Lp + "-1",):
+                R.paths += 1
+                pin = pins(k, derived)
+                iid = "%s: makeRedundantsTo(%s) not for DONT_CHANGE" % (short, ", ".join(a)[:40])
+                if any(x == -2 and derived[v][1] == "P" for v, x in pin.items()):
+                    R.fail(iid, where(f, k.line), Finding(R.rule, f["file"], base_name(f["q"]), "redundant-for-dont-change",
+                           "both levels of variable %s are made redundant (don't care) under a `DONT_CHANGE == <primed entry>` test" % Lp, k.line))
+                else:
+                    R.ok(iid, where(f, k.line))
+    if nshort < 3:
+        raise AnalysisBroken("build.uniform-shortcut: only %d whole-interval shortcuts found in createEdgeSet / createEdgeRel, expected 3" % nshort)
+    R.require_floor(8, "shortcut and pattern obligations of the minterm-collection builder")
+    return R
+
+
+RULES = [rule_level_sign, rule_twins, rule_eval_dispatch, rule_iter_advance, rule_fold_mirror, rule_uniform_shortcut]
